@@ -196,6 +196,7 @@ type Tree struct {
 	E   []*Tree  ` + "`json:\"e,omitempty\"`" + `
 	MK  []*Tree  ` + "`json:\"mk,omitempty\"`" + `
 	ID  int      ` + "`json:\"id,omitempty\"`" + `
+	FA  []int    ` + "`json:\"fa,omitempty\"`" + `
 	To  *Tree    ` + "`json:\"to,omitempty\"`" + `
 	Nil bool     ` + "`json:\"nil,omitempty\"`" + `
 }
@@ -243,6 +244,9 @@ func (f *fp) tree(v reflect.Value, depth int) *Tree {
 		for i := 0; i < v.NumField(); i++ {
 			t.FN = append(t.FN, v.Type().Field(i).Name)
 			t.F = append(t.F, f.tree(v.Field(i), depth+1))
+			if v.CanAddr() {
+				t.FA = append(t.FA, f.id(v.Field(i).UnsafeAddr()))
+			}
 		}
 	case reflect.Ptr:
 		t.K = "ptr"
